@@ -1,6 +1,7 @@
 import GramModel.Check
 import GramModel.Props.C05
 import GramModel.Lemmas.StoreMono
+import GramModel.Lemmas.Whnf
 
 /-!
 # C12 — unification succeeds only with a consistent, well-scoped solution
@@ -17,17 +18,37 @@ theorem C12_store_monotone : C12_store_monotone_stmt := by
 /-- Weak-head normalisation never returns a group (the `panic!` arm of `unify` is unreachable). -/
 def C12_whnf_never_let_stmt : Prop :=
   ∀ (fuel : Nat) (t r : Tm) (s s' : St), whnfS fuel t s = .ok r s' → ∀ ds b, r ≠ .letg ds b
+theorem C12_whnf_never_let : C12_whnf_never_let_stmt := by
+  intro fuel t r s s' h
+  exact WhnfLemmas.whnfS_notLet' h
 
 /-- Unification never reaches its `panic!("Encountered a let after conversion to weak head normal
 form")` arm. -/
 def C12_unify_no_let_panic_stmt : Prop :=
   ∀ (fuel : Nat) (a b : Tm) (s : St), unifyS fuel a b s ≠ .panic "unify.let_after_whnf"
+theorem C12_unify_no_let_panic : C12_unify_no_let_panic_stmt := by
+  intro fuel a b s
+  exact (WhnfLemmas.unifyS_np fuel a b).out s
 
 /-- A cell is only ever solved by a term in which it does not occur (the occurs check guards every
 assignment): `solveS` assigns only when `occursS` answered `false`. -/
 def C12_assign_guarded_stmt : Prop :=
   ∀ (f id shift : Nat) (other : Tm) (s s' : St), solveS f id shift other s = .ok (some true) s' →
     ∃ s1, occursS f id other s1 = .ok false s1
+theorem C12_assign_guarded : C12_assign_guarded_stmt := by
+  intro f id shift other s s' h
+  obtain ⟨_, s1, _, h2⟩ := WhnfLemmas.solveS_true h
+  exact ⟨s1, h2⟩
+
+/-- The same, naming the state in which the occurs check ran: it is the state `s1` reached after the
+guard `signed_shift(other, 0, -shift)` succeeded, and the occurs check leaves that state as it was. -/
+def C12_assign_guarded_precise_stmt : Prop :=
+  ∀ (f id shift : Nat) (other : Tm) (s s' : St), solveS f id shift other s = .ok (some true) s' →
+    ∃ sol s1, sshiftS f 0 (-(shift : Int)) other s = .ok (some sol) s1 ∧
+      occursS f id other s1 = .ok false s1
+theorem C12_assign_guarded_precise : C12_assign_guarded_precise_stmt := by
+  intro f id shift other s s' h
+  exact WhnfLemmas.solveS_true h
 
 /-! ## Non-vacuity / witnesses -/
 
